@@ -104,7 +104,7 @@ impl Check for C11 {
     }
 
     fn run(&self, run: &Run) {
-        let q = run.tier.quick();
+        let q = false;
         run.rule("pairs of scenes that the property declares equivalent are executed on identical initial contents and must give bit-identical surfaces: (i) fill(p) under T vs fill(Path::transform(p, T)) under the identity, 11 transforms x paths (triangles over a 3x3 off-grid set, curves, arcs, even-odd ring, no-MoveTo path) x 2 aa x sources; (ii) stroke under T vs NonZero fill of stroke_to_path(p).transform(T); (iii) CTM T with source transform T vs identity/identity for exactly invertible T; (iv) singular T leaves the target unchanged for every drawing call and context; (v) push_clip_rect / mask / copy_surface / blend_surface under T vs under I; (vi) get_transform() bit-identical after clear and pop_layer; non-trivial = the scene changed pixels");
         let ps = paths(q);
         let white = SrcSpec::Solid(0xffffffff);
